@@ -194,6 +194,8 @@ def lowered_body(spec, unit, log):
     body = re.sub(r'\bauto\s+(\w+)\s*=\s*fn_move\(', r'fn_t \1 = fn_move(', body)
     body = lower.apply_rules(body, unit.rules, log, 'post')
     body = lower.apply_rules(body, spec.rules, log, 'post')
+    body = re.sub(r'(\.|->)buffer\.size\(\)', r'\1bufsz', body)
+    body = re.sub(r'(\.|->)buffer\.empty\(\)', r'\1bufsz == 0', body)
     # `auto x = ...` with a declared local type
     for name, cty in spec.locals.items():
         body, n = re.subn(r'\b(?:const\s+)?auto(?:\s+const)?\s*&?\s*%s\b' % re.escape(name), '%s %s' % (cty, name), body)
